@@ -2,16 +2,20 @@ import binascii, glob, json, os, subprocess, vlib
 from props import gocommon
 
 THEOREMS = ["Folang.Props.C06." + t for t in "col_invariant_init col_invariant_step col_invariant indent_shift".split()] + \
-    ["Folang.Tokenizer." + t for t in "scan_blanks nextNonSpace_blanks nextNonSpace_fuel spaceLen_blanks".split()]
+    ["Folang.Tokenizer." + t for t in "scan_blanks nextNonSpace_blanks nextNonSpace_fuel spaceLen_blanks".split()] + \
+    ["Folang.Props.C06Block." + t for t in "block_roundtrip layout_invariance dedent_ends_block overrun_rejected block_result_unique lay₁_lays lay₂_lays fact_columnUses".split()] + \
+    ["Folang.Offside." + t for t in "pStmt_lays pList_lays".split()]
 
 ASSUMPTIONS = [
+    "offside scheme (Model/Offside.lean: parseBlock / parseStmtList / isEndOfBlock / psPushOffside / psSkipEOL over tokens that carry a kind and the tokenizer's column; every block opener - the = of a function definition, ->, then, else - is one token kind, every other token a word): block_roundtrip proves that EVERY layout of a block structure (each nested block at any column right of its opening statement, on the same line or after any number of end-of-line tokens, any columns for the other tokens of a line, any number of blank / comment lines) is read back as exactly that structure and that the parser stops at the first token left of the block; layout_invariance, dedent_ends_block, overrun_rejected are corollaries; fact_columnUses (regenerated) lists every function of fc that reads a column",
+    "tie of the offside model: stream c06.block - random block structures rendered as real Folang under random layouts; the REAL tokenizer's tokens go to the model, whose reading must equal the block structure of the REAL parser's AST (every Block value, by reflection), and both must equal the rendered structure; dedent variants included. Not in the model: the expression grammar inside a statement (C08), a right parenthesis ending a block, inline one-line if",
     "PARTIAL: C06_full (emitted Go invariant under every re-layout of the layout grammar) is stated, not proved; proved: indent_shift (after an EOL token, k more blanks in front of a line leave its first token unchanged and move its column and begin by exactly k: all byte strings, comments and tabs included), scan_blanks / nextNonSpace_blanks (blanks merge into one SPACE token exactly k bytes longer), and col_invariant for the byte-level tokenizer model (all inputs, all reachable states)",
     "the parser's use of columns (psPushOffside / isEndOfBlock / insideOffside / psSkipEOL) is not modelled: tied by the layout stream (one abstract program under many random layouts through the real compiler; byte-identical Go required) and the dedent test (a statement indented less than its block must behave as moved out of it)",
     "layout grammar = the list in the statement: block indentation by any positive amount, blank lines, trailing blanks, line/block comments between or after statements, arms and definitions, if on one line or several, let right-hand side and arm body on the same or the next line, pipeline broken before any |>; record literal fields and call arguments are never broken across lines",
-    "known findings D10 (newline inside a block comment before code on the same line), D13 ($\"...\" token begins one byte late), D15 (a dedented line starting with a binary operator continues the expression); generators avoid them",
+    "known findings D10 (newline inside a block comment before code on the same line), D13 ($\"...\" token begins one byte late), D15 (a dedented line starting with a binary operator continues the expression), D21 (an else left of the enclosing block is taken by an inner if without else); generators avoid them",
 ]
 
-KNOWN = {"d10_multiline_comment": "D10", "d13_interp_first_token": "D13", "d15_dedented_operator": "D15"}
+KNOWN = {"d10_multiline_comment": "D10", "d13_interp_first_token": "D13", "d15_dedented_operator": "D15", "d21_dangling_else": "D21"}
 
 
 def tsrc(fcdrv, paths):
@@ -28,14 +32,20 @@ def run(ctx):
     ctx.ensure_oracle()
     fcdrv = ctx.build_fcdrv()
     ctx.assumptions += ASSUMPTIONS
-    ctx.partial += ["C06_full not proved", "obs_invariance / parser-level column monotonicity not built"]
-    ctx.lake_build(["Folang.Props.C06"])
-    ctx.audit(THEOREMS, ["Folang.Props.C06"])
+    ctx.partial += ["C06_full (for the whole real parser and emitter) not proved: the offside scheme is proved on the model of the block parser, the expression grammar inside statements is C08's, their composition with the emitter is decided per program by the layout stream"]
+    ctx.build_go("extract")
+    ctx.regenerate("offside", "OffsideFacts.lean")
+    mods = ["Folang.Props.C06", "Folang.Props.C06Block"]
+    ctx.lake_build(mods)
+    ctx.audit(THEOREMS, mods)
     if ctx.tier == "thorough":
-        ctx.leanchecker(["Folang.Props.C06"])
+        ctx.leanchecker(mods)
     # tokenizer correspondence incl. columns (the model col_invariant is about)
     n = 800 if ctx.tier == "quick" else 20000
     ctx.stream("tok", [fcdrv], env=gocommon.fc_env("tok", "%d %d" % (ctx.seed + 3, n)), timeout=3000)
+    # offside model vs the real tokenizer + parser
+    bargs = "%d 150 5" % (ctx.seed + 11) if ctx.tier == "quick" else "%d 4000 8" % (ctx.seed + 11)
+    ctx.stream("c06.block", [fcdrv], env=gocommon.fc_env("c06block", bargs), timeout=6000)
     # layout metamorphic runs + dedent test
     args = "%d 120 6" % ctx.seed if ctx.tier == "quick" else "%d 1200 20" % ctx.seed
     r = ctx.run_harness([fcdrv], env=gocommon.fc_env("c06", args), timeout=20000)
@@ -73,7 +83,7 @@ def run(ctx):
             ctx.direct.append({"kind": "layout finding not listed as known", "program": open(p).read(), "observed": st})
         else:
             ctx.notes.append("known finding %s no longer reproduces" % kid)
-    ctx.finish(rule="tokenizer streams (columns included) + one abstract program per case rendered under 6 (quick) / 20 (thorough) random layouts with independent choices at every block, statement, arm, definition and pipeline stage, emitted Go compared byte for byte with the canonical layout's; dedent test on if-only bodies; distinct = distinct abstract programs")
+    ctx.finish(rule="tokenizer streams (columns included) + one abstract program per case rendered under 6 (quick) / 20 (thorough) random layouts with independent choices at every block, statement, arm, definition and pipeline stage, emitted Go compared byte for byte with the canonical layout's; dedent test on if-only bodies; c06.block: random block structures x random layouts, model reading of the real token stream vs the real parser's block structure vs the rendered structure; distinct = distinct abstract programs")
 
 
 def replay(ctx, path):
